@@ -138,6 +138,34 @@ func checkC14(p *Prog, r *Report) {
 		if x, trueNil, ok := nilTest(cond); ok && strings.HasSuffix(Path(x), ".MsgCounterReference") {
 			return tri(curRef != trueNil)
 		}
+		// the same test written as a predicate helper ("referencesRequest(header)")
+		if c, pol := normCond(cond, true); c != nil {
+			if call, isCall := c.(*ssa.Call); isCall && predicateCallee(call) != nil {
+				res := predicate3(call, func(w ssa.Value) bool3 {
+					if x, trueNil, ok := nilTest(w); ok {
+						if strings.HasSuffix(Path(x), ".MsgCounterReference") {
+							return b3(curRef != trueNil)
+						}
+						if curRef && isNamed(derefType(x.Type()), "model", "HeaderType") {
+							return b3(!trueNil) // a message that carries a reference has a header
+						}
+					}
+					switch ib.decide(w, f) {
+					case 1:
+						return bTrue
+					case -1:
+						return bFalse
+					}
+					return bUnknown
+				}, 0)
+				switch res {
+				case bTrue:
+					return tri(pol)
+				case bFalse:
+					return tri(!pol)
+				}
+			}
+		}
 		return ib.decide(cond, f)
 	}
 	for _, fn := range impls {
